@@ -36,8 +36,14 @@ where
 
     let free_weight =
         wrapping_pow2::<Probability>(PRECISION).wrapping_sub(&probabilities.len().as_());
-    let normalization = normalization.unwrap_or_else(|| probabilities.iter().copied().sum::<F>());
+    let sum = probabilities.iter().copied().sum::<F>();
+    let normalization = normalization.unwrap_or(sum);
     if !normalization.is_normal() || !normalization.is_sign_positive() {
+        return Err(());
+    }
+    // A caller-provided normalization that is smaller than the actual sum would scale the
+    // cumulative distribution function beyond `1 << PRECISION`.
+    if normalization < sum {
         return Err(());
     }
     // A negative (or NaN) entry can hide behind a positive sum and would make the resulting
